@@ -104,6 +104,8 @@ func c14BidiClients() []c14Client {
 		mk("S WH Sfill R R CR CP"), mk("WH Sfill Rall CR CP"), mk("S WH Sfill CR Rall CP"),
 		// the client learns about the end of the stream from Receive first and sends afterwards
 		mk("S Rall Sfill CR CP"), mk("S R Rall S Sfill R CR CP"),
+		// cancelled before the request was ever started, then straight to the response side
+		mk("X S R CP"), mk("X S CP"), mk("X S Rall CR CP"),
 	}
 }
 
@@ -540,6 +542,19 @@ func c14Run(run *ev.Run, srv *svc.Server, c c14Case) {
 					fillErr = o.Err
 				}
 			}
+		}
+		run.Count("send_after_finish.sends_until_eof", int64(fills))
+		mk := fmt.Sprintf("send_after_finish.max_sends_until_eof.h2=%v", c.http2)
+		if int64(fills) > run.Counter(mk) {
+			run.Count(mk, int64(fills)-run.Counter(mk))
+		}
+		// On HTTP/2 the peer cannot take more than its flow-control window
+		// (1 MiB per stream for net/http's server) once the handler has
+		// returned, so the failure has to come within a few sends; 40 x 64 KiB
+		// leaves a wide margin (4-5 sends observed).
+		if c.http2 && fills > 40 {
+			fail("send-fails-late", fmt.Sprintf("%d sends of 64 KiB succeeded after the handler had finished before Send failed; on HTTP/2 the handler side keeps consuming the request", fills-1))
+			return
 		}
 		if fillErr == nil {
 			fail("send-never-fails", fmt.Sprintf("%d sends of 64 KiB after the handler had finished all succeeded; Send must fail with an error wrapping io.EOF", fills))
